@@ -40,6 +40,22 @@ var wrapVariantNames = []string{"wrap:func-raw", "wrap:method-der", "wrap:keypac
 // doWrap wraps through one of the three entry points, checks layout, model and
 // the unwrap round trip, and returns (key, 04||C).
 func doWrap(rd io.Reader, em *encMaster, eu *encUser, uid []byte, hid byte, klen, variant int) (key, cipher []byte, err error) {
+	return doWrapM(rd, em, eu, uid, hid, klen, variant, true)
+}
+
+// doWrapM: with model == false only the library's own round trip and the
+// layouts are checked (the cross-configuration transcript must run to its end
+// in every configuration even where a model-visible defect exists).
+func doWrapM(rd io.Reader, em *encMaster, eu *encUser, uid []byte, hid byte, klen, variant int, model bool) (key, cipher []byte, err error) {
+	checkWrap := func(de, uid []byte, klen int, key, cipher []byte) error {
+		if !model {
+			if len(cipher) != 65 || cipher[0] != 4 || len(key) != klen {
+				return fmt.Errorf("wrap output: key %d bytes, cipher %s", len(key), h.Hex(cipher))
+			}
+			return nil
+		}
+		return checkWrap(de, uid, klen, key, cipher)
+	}
 	pub := em.key.PublicKey()
 	var back []byte
 	switch variant % 3 {
@@ -109,6 +125,10 @@ func doWrap(rd io.Reader, em *encMaster, eu *encUser, uid []byte, hid byte, klen
 // doEncrypt encrypts, checks the ciphertext with the model and the decryption
 // round trip, and returns the ciphertext.
 func doEncrypt(rd io.Reader, em *encMaster, eu *encUser, uid []byte, hid byte, msg []byte, mode int, asn1 bool, variant int) ([]byte, error) {
+	return doEncryptM(rd, em, eu, uid, hid, msg, mode, asn1, variant, true)
+}
+
+func doEncryptM(rd io.Reader, em *encMaster, eu *encUser, uid []byte, hid byte, msg []byte, mode int, asn1 bool, variant int, model bool) ([]byte, error) {
 	orig := append([]byte{}, msg...)
 	ct, err := libEncrypt(rd, em, uid, hid, msg, mode, asn1, variant)
 	if err != nil {
@@ -117,8 +137,10 @@ func doEncrypt(rd io.Reader, em *encMaster, eu *encUser, uid []byte, hid byte, m
 	if !bytes.Equal(msg, orig) {
 		return nil, fmt.Errorf("encrypt modified the caller's plaintext")
 	}
-	if err := checkCiphertext(eu.de, uid, mode, asn1, ct, msg); err != nil {
-		return nil, err
+	if model {
+		if err := checkCiphertext(eu.de, uid, mode, asn1, ct, msg); err != nil {
+			return nil, err
+		}
 	}
 	in := append([]byte{}, ct...)
 	v := variant
@@ -141,6 +163,10 @@ func doEncrypt(rd io.Reader, em *encMaster, eu *encUser, uid []byte, hid byte, m
 // doSign signs, checks the signature with the model's verification equation and
 // with the library's verifiers, and returns the DER signature.
 func doSign(rd io.Reader, sm *signMaster, su *signUser, uid []byte, hid byte, msg []byte, variant int) ([]byte, error) {
+	return doSignM(rd, sm, su, uid, hid, msg, variant, true)
+}
+
+func doSignM(rd io.Reader, sm *signMaster, su *signUser, uid []byte, hid byte, msg []byte, variant int, model bool) ([]byte, error) {
 	var sig []byte
 	var err error
 	pub := sm.key.PublicKey()
@@ -165,8 +191,10 @@ func doSign(rd io.Reader, sm *signMaster, su *signUser, uid []byte, hid byte, ms
 	if err != nil {
 		return nil, fmt.Errorf("sign: %v", err)
 	}
-	if err := checkSignature(sm.pub, uid, hid, msg, sig); err != nil {
-		return nil, err
+	if model {
+		if err := checkSignature(sm.pub, uid, hid, msg, sig); err != nil {
+			return nil, err
+		}
 	}
 	if !sm9.VerifyASN1(pub, uid, hid, msg, sig) {
 		return nil, fmt.Errorf("VerifyASN1 rejects a fresh signature: uid=%s hid=%d msg=%s sig=%s", h.Hex(uid), hid, h.Hex(msg), h.Hex(sig))
@@ -206,8 +234,11 @@ var blockModes = []int{modeECB, modeCBC, modeCFB, modeOFB}
 func TestC10_UidSweep(t *testing.T) {
 	h.MarkExhaustive("uid-sweep")
 	h.Sweep(t, h.P{Name: "uid-sweep"}, func(emit func(uidCase)) {
-		for n := 0; n <= 200; n++ {
-			emit(uidCase{UidLen: n, Hid: int(pickHid(n, h.Seed)), MK: sweepMasters[n%len(sweepMasters)], Seed: gen.Mix(h.Seed, 0x0a, uint64(n))})
+		passes := h.Scale(1, 3)
+		for p := 0; p < passes; p++ {
+			for n := 0; n <= 200; n++ {
+				emit(uidCase{UidLen: n, Hid: int(pickHid(n+p, h.Seed)), MK: sweepMasters[(n+3*p)%len(sweepMasters)], Seed: gen.Mix(h.Seed, 0x0a, uint64(n), uint64(p))})
+			}
 		}
 	}, checkUid)
 }
@@ -483,11 +514,11 @@ func genLen(t *rapid.T) int {
 // entry points), keys built fresh per case (first-use path of the lazily built
 // pairing base and GT table).
 func TestC10_Mix(t *testing.T) {
-	q := 260
+	q, th := 260, 4000
 	if h.Cfg == "purego" {
-		q = 50
+		q, th = 50, 1000
 	}
-	h.Prop(t, h.P{Name: "mix", Quick: q, Thorough: 6000}, func(t *rapid.T) mixCase {
+	h.Prop(t, h.P{Name: "mix", Quick: q, Thorough: th}, func(t *rapid.T) mixCase {
 		c := mixCase{
 			Op:     rapid.IntRange(0, 2).Draw(t, "op"),
 			MK:     genMK(t),
